@@ -342,8 +342,75 @@ def h_sum(B, cfg):
     B.eq("sum: metric == block Fisher + prior", flat_of(lin.metric(dxf)), [t for k in keys for t in want[k]])
 
 
+def h_cgauss(B, model, icov):
+    """complex Gaussian likelihood behind a complex linear model: the metric is the
+    Hermitian pull-back J^H N^-1 J (|f|^2 N^-1 for a scaling), not J^T N^-1 J"""
+    with shims_cl.complex_mode(True):
+        dom = ift.DomainTuple.make(U(N))
+        cdt = object if B.mode == "sym" else np.complex128
+        d = B.complexes("dat", (N,))
+        x = B.complexes("x", (N,))
+        dx = B.complexes("dx", (N,))
+        if icov == "diag":
+            n = B.reals("nd", (N,))
+            B.assume_all([t > 0 for t in n])
+            ic = ift.makeOp(field_of(dom, n), sampling_dtype=cdt)
+        elif icov == "scaling":
+            ns = B.reals("ns")
+            B.assume(ns > 0)
+            n = [ns] * N
+            ic = ift.ScalingOperator(dom, ns, cdt)
+        else:
+            n = [1] * N
+            ic = None
+        f = B.complexes("f")
+        w = B.complexes("w", (N,))
+        with B.setup():
+            en = ift.GaussianEnergy(field_of(dom, d), ic)
+            if model == "cscale":
+                mop = ift.ScalingOperator(dom, f)
+                J = [f] * N
+            elif model == "cdiag":
+                mop = ift.makeOp(field_of(dom, w))
+                J = list(w)
+            elif model == "cscale_diag":
+                mop = ift.ScalingOperator(dom, f) @ ift.makeOp(field_of(dom, w))
+                J = [f * t for t in w]
+            elif model == "half_cscale":      # 0.5 * lh behind a scaling (scaled likelihood)
+                mop = ift.ScalingOperator(dom, f)
+                J = [f] * N
+            else:
+                raise ValueError(model)
+            H = en @ mop
+            fac = 1
+            if model == "half_cscale":
+                H = ift.ScalingOperator(ift.DomainTuple.scalar_domain(), 0.5) @ H
+                fac = 0.5
+        xf, dxf = field_of(dom, x), field_of(dom, dx)
+        r = [j * a - b for j, a, b in zip(J, x, d)]
+        val = fac * 0.5 * sum_(t.conjugate() * k * t for t, k in zip(r, n))
+        lin = H(ift.Linearization.make_var(xf, want_metric=True))
+        B.eq("complex Gaussian: value", flat_of(lin.val), [val])
+        B.eq("complex Gaussian: gradient == J^H N^-1 r", flat_of(lin.gradient),
+             [fac * j.conjugate() * k * t for j, k, t in zip(J, n, r)])
+        mdx = lin.metric(dxf)
+        B.eq("complex Gaussian: metric(dx) == J^H N^-1 J dx", flat_of(mdx),
+             [fac * j.conjugate() * k * j * t for j, k, t in zip(J, n, dx)])
+        tr = H.get_transformation()
+        B.is_true("transformation provided", tr is not None)
+        jl = tr[1](ift.Linearization.make_var(xf))
+        B.eq("complex Gaussian: J^H J dx == metric dx for the transformation", flat_of(jl.jac.adjoint_times(jl.jac(dxf))), flat_of(mdx))
+        m2 = H.get_metric_at(xf)(dxf)
+        B.eq("complex Gaussian: get_metric_at == metric", flat_of(m2), flat_of(mdx))
+
+
 def scenarios(tier, seed):
     out = []
+    for model in ("cscale", "cdiag", "cscale_diag", "half_cscale"):
+        for icov in ("none", "scaling", "diag"):
+            if tier == "quick" and model == "half_cscale" and icov != "diag":
+                continue    # 20-60 s each: thorough tier
+            out.append(("cgauss", {"model": model, "icov": icov}))
     for name, (_, cfgs) in ENERGIES.items():
         for cfg in cfgs:
             wk = ["bare", "scaled", "hamiltonian"]
@@ -357,7 +424,7 @@ def scenarios(tier, seed):
     return out
 
 
-HARNESSES = {"energy": h_energy, "sum": h_sum}
+HARNESSES = {"energy": h_energy, "sum": h_sum, "cgauss": h_cgauss}
 OPTS = {"quick": {"max_paths": 64}, "thorough": {"max_paths": 128}}
 
 META = {
@@ -377,6 +444,6 @@ META = {
     "bounds": {"pixels": 2, "integer data": "two concrete data sets per discrete likelihood"},
     "stubs": shims_cl.STUBS[:5],
     "outside": ["VariableCovarianceGaussianEnergy(use_full_fisher=False) (metric only equals the Fisher information in "
-                "expectation over data)", "complex sampling dtypes", "float32"],
+                "expectation over data)", "complex sampling dtypes other than the Gaussian likelihood", "float32"],
     "assumptions": ["parameters inside the support (rates > 0, 0 < p < 1, covariances > 0, theta > 0)"],
 }
